@@ -80,6 +80,7 @@ fn clone_once_op(env: &Env, seed_output: bool, use_seeds: bool, verify_output: b
         p.fake_blockdev = f.blockdev;
         p.capture = false;
         p.writes = 0;
+        p.reads = 0;
         if let Some((k, a)) = &fault {
             s.add_fault("out.bin", fault_op, *k, a.clone());
         }
@@ -147,15 +148,21 @@ fn run_l1(ctx: &mut Ctx, f: &Fam) {
         let file = SimFile::new(prior.clone());
         file.with(|g| g.fixed_size = f.blockdev);
         let (fault, what) = if error_family {
-            let kind = *gen::t(|t| t.pick(&[std::io::ErrorKind::StorageFull, std::io::ErrorKind::Other, std::io::ErrorKind::BrokenPipe]));
-            (WriteFault::Error(kind), format!("write call {} fails with {:?}", k, kind))
+            let kind = *gen::t(|t| t.pick(&[std::io::ErrorKind::StorageFull, std::io::ErrorKind::Other, std::io::ErrorKind::BrokenPipe, std::io::ErrorKind::Interrupted]));
+            if gen::chance(1, 3) {
+                let p = 1 + gen::draw(avg.max(1) as u32) as usize;
+                (WriteFault::ShortThenError(p, kind), format!("write call {} takes {} bytes, the next one fails with {:?}", k, p, kind))
+            } else {
+                (WriteFault::Error(kind), format!("write call {} fails with {:?}", k, kind))
+            }
         } else {
             let p = tear(avg);
             (WriteFault::Crash(p), format!("process death at write call {} after {} bytes", k, if p == usize::MAX { "all".to_string() } else { p.to_string() }))
         };
         file.with(|g| g.write_fault = Some((k, fault)));
         let o1 = clone_on(&file, f.seed_output, true);
-        let hit = file.with(|g| g.write_fault.is_none());
+        let hit = file.with(|g| g.write_fault.is_none() && g.fail_next_write.is_none());
+        file.with(|g| g.fail_next_write = None);
         let desc = json!({"level": "lib", "scenario": f.desc, "writes_uninterrupted": w, "fault": what, "outcome": o1.short()});
         if matches!(o1, Outcome::Panic(_) | Outcome::StepBudget | Outcome::Deadlock) {
             ctx.fail(&format!("l1-faulted-outcome:{}", o1.class()), format!("library clone with a failing write ended with {}; {}", o1.short(), desc));
@@ -179,6 +186,40 @@ fn run_l1(ctx: &mut Ctx, f: &Fam) {
         if out.len() < src.len() || out[..src.len()] != src[..] {
             ctx.fail("l1-rerun-output-differs", format!("after the fault-free re-run in place the output differs from the source at byte {:?}; {}", gen::first_diff(&out[..out.len().min(src.len())], &src), desc));
             return;
+        }
+    }
+    // one read of the output fails once (EIO on a sector, EINTR) while the prior content is
+    // re-ordered in place: whatever the clone makes of it, Ok means the source is there
+    if f.seed_output && error_family {
+        let reads = base.ops().iter().filter(|o| matches!(o, FileOp::Read { .. })).count() as u64;
+        for _ in 0..reads.min(6) {
+            let file = SimFile::new(prior.clone());
+            file.with(|g| g.fixed_size = f.blockdev);
+            let k = gen::draw(reads as u32) as u64;
+            let kind = *gen::t(|t| t.pick(&[std::io::ErrorKind::Other, std::io::ErrorKind::Interrupted, std::io::ErrorKind::UnexpectedEof]));
+            file.with(|g| g.read_fault = Some((k, kind)));
+            let o1 = clone_on(&file, true, true);
+            let hit = file.with(|g| g.read_fault.is_none());
+            file.with(|g| g.read_fault = None);
+            let desc = json!({"level": "lib", "scenario": f.desc, "fault": format!("read call {} of the output fails with {:?}", k, kind), "outcome": o1.short()});
+            if matches!(o1, Outcome::Panic(_) | Outcome::StepBudget | Outcome::Deadlock) {
+                ctx.fail(&format!("l1-faulted-outcome:{}", o1.class()), format!("library clone with a failing read of the output ended with {}; {}", o1.short(), desc));
+                return;
+            }
+            if hit {
+                fired += 1;
+                let out = file.contents();
+                if o1.is_success() && (out.len() < src.len() || out[..src.len()] != src[..]) {
+                    ctx.fail("l1-failed-read-reported-success", format!("a read of the output failed during the in-place update, the library clone returned Ok and the output differs from the source at byte {:?}; {}", gen::first_diff(&out[..out.len().min(src.len())], &src), desc));
+                    return;
+                }
+            }
+            let o2 = clone_on(&file, true, gen::chance(1, 2));
+            let out = file.contents();
+            if !o2.is_success() || out.len() < src.len() || out[..src.len()] != src[..] {
+                ctx.fail("l1-rerun-output-differs", format!("after a failed read and a fault-free re-run in place ({}) the output is not the source; {}", o2.short(), desc));
+                return;
+            }
         }
     }
     simkit::with(|s| s.count_n("crash-points", ks.len() as u64));
@@ -375,6 +416,42 @@ pub fn run(ctx: &mut Ctx) {
             }
             if !check_final(ctx, "error", &desc) {
                 return;
+            }
+        }
+    }
+    // error family, in place: one read of the output fails with EIO (a bad sector) -- while the
+    // old content is scanned or while it is re-ordered. The clone may fail; exit 0 means the
+    // source is there; the re-run completes it.
+    if error_family && f.seed_output && !ctx.failed() {
+        reset_output(&f);
+        let (o0, _, _) = clone_once(&env, true, true, false, None);
+        let reads = sys::with(|s| s.events_for("out.bin").filter(|e| e.op == Op::Read && e.ret > 0).count() as u64);
+        if o0.is_success() && reads > 0 {
+            for _ in 0..reads.min(5) {
+                reset_output(&f);
+                let k = gen::draw(reads as u32) as u64;
+                let (o1, _, fired) = clone_once_op(&env, true, true, false, Some((k, FaultAction::Errno(libc::EIO))), Op::Read);
+                fired_total += fired;
+                let desc = json!({"scenario": f.desc, "fault": format!("read call {} of {} on the output fails with EIO", k, reads), "outcome": o1.short()});
+                if matches!(o1, Outcome::Panic(_) | Outcome::StepBudget | Outcome::Deadlock) {
+                    ctx.fail(&format!("faulted-outcome:{}", o1.class()), format!("an in-place clone with a failing read of the output ended with {}; {}", o1.short(), desc));
+                    return;
+                }
+                if fired > 0 && o1.is_success() {
+                    let out = scen::get_file("out.bin").unwrap_or_default();
+                    if out.len() < src.len() || out[..src.len()] != src[..] {
+                        ctx.fail("failed-read-reported-success", format!("a read of the output failed with EIO during the in-place update, yet the clone exited 0 and the output differs from the source at byte {:?}; {}", gen::first_diff(&out[..out.len().min(src.len())], &src), desc));
+                        return;
+                    }
+                }
+                let (o3, _, _) = clone_once(&env, true, gen::chance(1, 2), false, None);
+                if !o3.is_success() {
+                    ctx.fail(&format!("rerun-failed:{}", o3.class()), format!("the fault-free re-run with the output as seed ended with {}; {}", o3.short(), desc));
+                    return;
+                }
+                if !check_final(ctx, "error", &desc) {
+                    return;
+                }
             }
         }
     }
